@@ -1,7 +1,24 @@
 //! h-conn: harnesses that need qconnection pieces (no network).
+mod c01;
+mod c06;
+mod c12;
+mod c14;
+mod c15a;
+mod c19a;
+mod pipe;
+
 fn main() {
     let args = mc_core::Args::parse();
     let code = match args.property.as_str() {
+        "C01" => c01::run(&args, "c01/"),
+        "C06" => c06::run(&args),
+        "C14" => c14::run(&args),
+        "C15a" => c15a::run(&args),
+        "C19a" => c19a::run(&args),
+        "C11pipe" => c01::run(&args, "c11/"),
+        "C12pipe" => c01::run(&args, "c12/"),
+        "C12peer" => c12::run(&args, false),
+        "C11recv" => c12::run(&args, true),
         other => {
             eprintln!("h-conn: unknown property {other}");
             2
